@@ -3,6 +3,7 @@ NEXT Next
 CONSTANTS
   MaxItems = 2
   MaxDepth = 1
+  GapSet <- NoGaps
   LitSet <- QuickLits
 INVARIANT Emit
 CHECK_DEADLOCK FALSE
